@@ -460,11 +460,8 @@ class GroupEffectsMatrix:
             groups = term.groups
             term_slice = self.slices[name]
             term_slice_width = get_slice_width(term_slice)
-            levels_n = len(term.expr.levels) if has_levels else 1
-            if term_slice_width != len(groups) * levels_n:  # Has extra groups
-                assert (
-                    term_slice_width == len(groups) + levels_n
-                ), "It should only have one extra group"
+            # The term is wider than it is with the original data when it has an extra group
+            if term_slice_width != term.data.shape[1]:
                 groups = groups + ["__NEW_FACTOR_GROUP__"]
             content = [f"kind: {term.kind}", f"groups: {groups}"]
             if has_levels:
